@@ -42,6 +42,10 @@ Section Grid.
 Variable A : Type.
 Variable ar : Arith A.
 Variable fl : A -> option Z.
+Variable tolb : A.  (* 1e-10 : tolerance of the backends' _is_evaluation_time *)
+Variable tol0 : A.  (* 1e-6  : pulser's gate tolerance when total_duration == 0 *)
+Variable tolu : A.  (* 1e-12 : pulser.backend.observable.TIME_TOLERANCE, and the adapter's
+                       _TIME_TOLERANCE (merging of near-duplicate target times) *)
 
 Definition zero : A := a_ofZ ar 0.
 Definition one : A := a_ofZ ar 1.
@@ -80,15 +84,39 @@ Definition n_steps (dur dt : A) : res Z :=
   if a_eqb ar dt zero then Err 2%Z
   else match fl (a_div ar dur dt) with None => Err 3%Z | Some n => Ok n end.
 
-Definition target_times_of (dur dt : A) (n : Z) (req : list A) : list A :=
+(* the loop of _get_target_times over the sorted points: a point is skipped when its relative
+   distance to the last point kept is below _TIME_TOLERANCE *)
+Fixpoint merge_from (dur prev : A) (l : list A) : list A :=
+  match l with
+  | [] => []
+  | t :: r => if a_ltb ar (a_sub ar (a_div ar t dur) (a_div ar prev dur)) tolu
+              then merge_from dur prev r else t :: merge_from dur t r
+  end.
+Definition merge_close (dur : A) (l : list A) : list A :=
+  match l with [] => [] | t0 :: r => t0 :: merge_from dur t0 r end.
+
+(* target_times[-1] = duration *)
+Fixpoint set_last (d : A) (l : list A) : list A :=
+  match l with
+  | [] => []
+  | x :: r => match r with [] => [d] | _ :: _ => x :: set_last d r end
+  end.
+
+Definition candidates (dur dt : A) (n : Z) (req : list A) : list A :=
   sort_dedup (map (fun t => a_mul ar t dur) (grid_rel dur dt n ++ one :: req)).
+
+Definition target_times_of (dur dt : A) (n : Z) (req : list A) : list A :=
+  set_last dur (merge_close dur (candidates dur dt n req)).
 
 Definition get_target_times (dur dt : A) (obs : list (option (list A))) (dflt : option (list A))
   : res (list A) :=
   res_bind (n_steps dur dt) (fun n =>
     if (0 <=? n)%Z && a_eqb ar dur zero then Err 2%Z
     else res_bind (unique_observable_times obs dflt) (fun req =>
-         Ok (target_times_of dur dt n req))).
+         match target_times_of dur dt n req with
+         | [] => Err 30%Z   (* unreachable: 1.0 * duration is always a point *)
+         | g => Ok g
+         end)).
 
 (* get_sequences: one SequenceData per repetition, trajectory after trajectory.  A trajectory
    is abstracted to an identifier of type T. *)
@@ -96,10 +124,6 @@ Definition get_sequences (T : Type) (samples : list (T * nat)) : list T :=
   flat_map (fun s => repeat (fst s) (snd s)) samples.
 
 (* ---- recording --------------------------------------------------------------------------- *)
-Variable tolb : A.  (* 1e-10 : tolerance of the backends' _is_evaluation_time *)
-Variable tol0 : A.  (* 1e-6  : pulser's gate tolerance when total_duration == 0 *)
-Variable tolu : A.  (* 1e-12 : pulser.backend.observable.TIME_TOLERANCE *)
-
 Definition in01 (t : A) : bool := a_leb ar zero t && a_leb ar t one.
 
 (* EmulationConfig.is_time_in_evaluation_times *)
@@ -113,10 +137,13 @@ Definition is_evaluation_time (dflt : option (list A)) (t : A) (tol : A) : bool 
   | Some d => in_times t d tol
   end.
 
-(* _is_evaluation_time of both backends (tolerance 1e-10) *)
+(* _is_evaluation_time of both backends (tolerance 1e-10): the config default only applies to
+   observables without evaluation times of their own *)
 Definition backend_gate (dflt : option (list A)) (o : option (list A)) (t : A) : bool :=
-  (match o with Some ts => in_times t ts tolb | None => false end)
-  || is_evaluation_time dflt t tolb.
+  match o with
+  | Some ts => in_times t ts tolb
+  | None => is_evaluation_time dflt t tolb
+  end.
 
 (* time gate of pulser's Observable.__call__ (tolerance tolp = 0.5/total_duration) *)
 Definition pulser_gate (dflt : option (list A)) (tolp : A) (o : option (list A)) (t : A) : bool :=
